@@ -17,7 +17,8 @@ RULE = ('random trajectory sets (1-6 trajectories, lengths incl. 1 and below the
         'every T[i,j] within 1e-12 of the exact C_ij/S_i of the model, function and method. '
         'Non-trivial: >= 2 non-zero rows in C and (a trajectory not longer than the lag or >= 2 trajectories).'
         ' Added classes: narrow integer arrays (runs > 127/255 frames, > 128 states over arrays of different widths/signedness), (N,1) arrays, zero-length member trajectories, > 256 trajectories, one trajectory of > 2^16 frames, Fortran/transposed/strided memory layouts, lag times given as NumPy integer scalars; after the estimate the returned (T, states) are overwritten and the estimate repeated on the same object.'
-        ' Later: state counts at the int8/uint8 boundaries (127..130, 255..258), a container that held other trajectories in an earlier call (changed in place), objects that served coring / reads before, many snippets of lag+1 frames, > 100000 frames in several trajectories.')
+        ' Later: state counts at the int8/uint8 boundaries (127..130, 255..258), a container that held other trajectories in an earlier call (changed in place), objects that served coring / reads before, many snippets of lag+1 frames, > 100000 frames in several trajectories.'
+        ' Fifth/sixth batch: unsigned NumPy lag times with > 256 frames, alphabets that imitate an index alphabet (same max / min / sum), balanced ragged lengths, int8 from a negative base over > 128 states, spreads beyond 2^16, single-frame sets.')
 TRUSTED = ['float division within 1e-12 of the exact quotient (measured on every case, not proved)',
            'numba typed-list conversion is exercised, not modelled']
 ASSUMPTIONS = ['labels within +-2^29', 'zero-length trajectories only as typed integer arrays (a python [] becomes a float array and is rejected by the library)']
